@@ -83,7 +83,6 @@ def _kv(rec, case):
         if Pid.shape != Ri.shape: rec.violation(dict(sig, route='knot_insertion', oracle='shape'), c, {}); return
         rec.check_close('knot_insertion', float(np.abs(Pid - Ri).max()), 1e-13, dict(sig, route='knot_insertion', at_existing_knot=bool(u in set(cur.kv.tolist()))), c, {'u': u})
         cur = nxt
-    if not new[:4]: rec.count('oracle:knot_insertion')
 
 def _tp_refine_matrix(kvs_c, kvs_f):
     """Dense Kronecker product of the reference 1D refinement matrices (axis order)."""
@@ -141,7 +140,6 @@ def _hs(rec, case):
             for d, P in enumerate(Ps):
                 R = _refmat(hs.knotvectors(k)[d].kv, hs.knotvectors(k)[d].p, hs.knotvectors(k + 1)[d].kv)
                 rec.check_close('level_prolongators', float(np.abs(P.toarray() - R).max()), 1e-11, dict(sig0, route='tp_prolongation'), c)
-    if L == 1: rec.count('oracle:level_prolongators')
     # ---- represent_fine against exact knot insertion (HB) / truncation by definition (THB)
     RH = _fine_rep(hs, False); RT = _fine_rep(hs, True)
     for trunc, Rref in ((False, RH), (True, RT)):
@@ -209,7 +207,6 @@ def _hs(rec, case):
                 rec.violation(dict(sig, oracle='shape', from_level=l), c, {'got': list(Q.shape)}); break
             got = Rfin @ Q
             rec.check_close('virtual_hierarchy', float(np.abs(got - want).max()), 1e-10, dict(sig, from_level='0' if l == 0 else 'intermediate'), c, {'from_level': l})
-    if L == 1: rec.count('oracle:virtual_hierarchy')
     # ---- prolongation to a further refinement (acts on HB coefficients)
     desc2 = dict(desc); desc2.pop('hseed', None)
     fine_hs = hs.copy()
@@ -234,8 +231,6 @@ def _hs(rec, case):
             if Pd.shape != (fine_hs.numdofs, n): rec.violation(dict(sig, oracle='shape'), c2, {'got': list(Pd.shape)})
             else: rec.check_close('prolongate_to', float(np.abs(RHf @ Pd - want).max()), 1e-10, sig, c2)
         if not hs.is_subspace_of(fine_hs): rec.violation(dict(sig0, route='is_subspace_of', oracle='a space is a subspace of its refinements'), c2, {})
-    else:
-        rec.count('oracle:prolongate_to')
     # ---- restriction to boundary faces
     if hs.dim >= 2:
         ax = int(rng.integers(0, hs.dim)); side = int(rng.integers(0, 2))
@@ -255,5 +250,3 @@ def _hs(rec, case):
                 cur = _tp_refine_matrix(kc_, kf_) @ cur
             if cur.size != face.size: rec.violation(dict(sig, oracle='boundary space size'), c, {})
             else: rec.check_close('boundary_trace', float(np.abs(cur - face.ravel()).max()), 1e-10 * (np.abs(u).max() + 1), sig, c, {'face': [ax, side]})
-    else:
-        rec.count('oracle:boundary_trace')
